@@ -76,7 +76,7 @@ func TestVerifDocGradientBounds(t *testing.T) {
 	stops.Add(0.75, canvas.Blue)
 	f = patternStopsFunction(stops)
 	bounds, _ = f["Bounds"].(pdfArray)
-	fs, _ := f["Functions"].([]pdfDict)
+	fs, _ := f["Functions"].(pdfArray)
 	if len(bounds) != len(fs)-1 {
 		t.Errorf("stops at 0, 0.5, 0.75: %d /Functions but %d /Bounds (%v), want %d", len(fs), len(bounds), bounds, len(fs)-1)
 	}
